@@ -171,6 +171,48 @@ class Facts:
 _INT = re.compile(r"^(-?\d+)_(?:[iu](?:8|16|32|64|128|size))$")
 
 
+def _parse_value(v):
+    """one value of rustc's constant pretty printer -> (python value, rest): ints, bools, strings, {"path": p} for a variant or
+    unit struct written by path, lists for arrays, {"tuple": [..]} for tuples"""
+    v = v.lstrip()
+    if v.startswith("const "):
+        v = v[6:].lstrip()
+    if v.startswith("[") or v.startswith("("):
+        close = "]" if v[0] == "[" else ")"
+        is_tuple = v[0] == "("
+        rest = v[1:].lstrip()
+        items = []
+        while not rest.startswith(close):
+            it, rest = _parse_value(rest)
+            items.append(it)
+            rest = rest.lstrip()
+            if rest.startswith(","):
+                rest = rest[1:].lstrip()
+            elif not rest.startswith(close):
+                raise ValueError(v)
+        return ({"tuple": items} if is_tuple else items), rest[1:]
+    if v.startswith('"'):
+        i = 1
+        while i < len(v) and v[i] != '"':
+            i += 2 if v[i] == "\\" else 1
+        if i >= len(v):
+            raise ValueError(v)
+        try:
+            return json.loads(v[:i + 1]), v[i + 1:]
+        except Exception:
+            return v[1:i], v[i + 1:]
+    m = re.match(r"^(-?\d+)(?:_?[iu](?:8|16|32|64|128|size))?", v)
+    if m:
+        return int(m.group(1)), v[m.end():]
+    m = re.match(r"^(true|false)\b", v)
+    if m:
+        return m.group(1) == "true", v[m.end():]
+    m = re.match(r"^[A-Za-z_][\w:]*", v)
+    if m and not v[m.end():].lstrip().startswith(("(", "{")):
+        return {"path": m.group(0)}, v[m.end():]
+    raise ValueError(v)
+
+
 def parse_const(val, ty):
     """value of a declared constant from rustc's pretty printer"""
     if val is None:
@@ -201,19 +243,13 @@ def parse_const(val, ty):
         except Exception:
             return v[1:-1]
     if v.startswith("[") and v.endswith("]"):
-        items = [x.strip() for x in v[1:-1].split(",") if x.strip()]
-        out = []
-        for it in items:
-            if it.startswith("const "):
-                it = it[6:]
-            m = _INT.match(it)
-            if m:
-                out.append(int(m.group(1)))
-            elif re.match(r"^[A-Za-z_][\w:]*$", it):
-                out.append({"path": it})      # an enum variant / unit struct written by path
-            else:
-                return v
-        return out
+        try:
+            out, rest = _parse_value(v)
+            if not rest.strip() and isinstance(out, list):
+                return out
+        except ValueError:
+            pass
+        return v
     # newtype / single-field struct around an integer:  `path {{ bits: 1_u8 }}` or `path(5_u8)`
     m = re.match(r"^[\w:<>]+\s*\{\{?\s*\w+:\s*(-?\d+)_[iu]\w+\s*\}?\}$", v)
     if m:
